@@ -342,6 +342,13 @@ def run_e2e(ck, acc, b, family, lits, float_family):
 # -------------------------------------------------------------------------------- main
 def main():
     ck = Check(PID, level="model_checking")
+    try:
+        return explore(ck)
+    finally:
+        ck.cleanup()      # scratch is removed on harness errors too (unless --keep)
+
+
+def explore(ck):
     b = build.build("rel")
     exe, facts = lib_c18.build_fpconv(b)
     if ck.replay:
